@@ -43,6 +43,11 @@ class SimNet(object):
         self.jitter = cfg.get("jitter", 0.05)
         self.slow = cfg.get("slow", {})          # node -> extra latency factor
         self.profile = cfg.get("lat_profile", "uniform")
+        # batch > 0: arrival times are rounded up to multiples of `batch` seconds and every message that arrives at one
+        # instant is handed over before any zero-delay call (foolscap eventual-send turn, callLater(0)) queued meanwhile
+        # runs -- a reactor iteration that reads several sockets before it gets to its queue of pending calls.  Order
+        # across connections at one instant is drawn (label-keyed); order within a connection stays FIFO.
+        self.batch = cfg.get("batch", 0) or 0
         self.conns = {}
         self.msgid = 0
         self.counters = {}
@@ -161,6 +166,16 @@ def _key(label, phase):
     return 1 + int.from_bytes(hashlib.blake2b(repr((label, phase)).encode(), digest_size=7).digest(), "big")
 
 
+def _batched(q, t, direction, mid):
+    """(arrival instant rounded up to the batch grid, tie-break key).  Keys are negative, so batched deliveries precede
+    zero-delay calls queued at the same instant; one (connection direction, instant) shares the drawn high part of the key
+    and is ordered by message id within it (FIFO)."""
+    import math
+    idx = int(math.ceil(t / q - 1e-9))
+    h = int.from_bytes(hashlib.blake2b(repr((direction, idx)).encode(), digest_size=3).digest(), "big")
+    return idx * q, -(1 << 60) + (h << 32) + (mid & 0xffffffff)
+
+
 def _brief(x, depth=0):
     if isinstance(x, (bytes, bytearray)):
         return "b[%d]" % len(x) if len(x) > 24 else repr(bytes(x))
@@ -271,6 +286,11 @@ class SimRef(object):
             t = max(t, conn.last_req_t + 2e-6)
             conn.last_req_t = t
         gen = conn.generation
+        if net.batch:
+            t, bkey = _batched(net.batch, t, (self.caller, self.callee, "req"), mid)
+            dc = R.callAtKeyed(t, bkey, self._deliver, mid, gen, methname, args, kwargs, label, d)
+            dc.sim_label = "req:%s>%s:%s#%d" % label
+            return d
         dc = R.callLaterKeyed(t - now, _key(label, "req"), self._deliver, mid, gen, methname, args, kwargs, label, d)
         dc.sim_label = "req:%s>%s:%s#%d" % label
         return d
@@ -350,7 +370,11 @@ class SimRef(object):
         else:
             t = max(t, conn.last_resp_t + 2e-6)
             conn.last_resp_t = t
-        dc = R.callLaterKeyed(t - now, _key(label, "resp"), self._answer, mid, gen, d, res, label[2])
+        if net.batch:
+            t, bkey = _batched(net.batch, t, (self.callee, self.caller, "resp"), mid)
+            dc = R.callAtKeyed(t, bkey, self._answer, mid, gen, d, res, label[2])
+        else:
+            dc = R.callLaterKeyed(t - now, _key(label, "resp"), self._answer, mid, gen, d, res, label[2])
         dc.sim_label = "resp:%s>%s:%s#%d" % label
 
     def _answer(self, mid, gen, d, res, methname=None):
